@@ -323,7 +323,12 @@ func (c10Stream) Generate(rng *rand.Rand, n int, thorough bool) []Case {
 		if route == 1 && rng.Intn(4) == 0 {
 			upanic = 1 // the application's unbind handler panics: the Unbind still ends the connection
 		}
-		cs = append(cs, Case{Line: fmt.Sprintf("c10 pre=%d post=%d route=%d block=%d mode=%s seed=%d hold=%d upanic=%d", rng.Intn(9), rng.Intn(9), route, rng.Intn(2),
+		pre, block := rng.Intn(9), rng.Intn(2)
+		if rng.Intn(8) == 0 {
+			// a long pipeline of requests whose handlers are all still blocked when the Unbind is read
+			pre, block = 100+rng.Intn(200), 1
+		}
+		cs = append(cs, Case{Line: fmt.Sprintf("c10 pre=%d post=%d route=%d block=%d mode=%s seed=%d hold=%d upanic=%d", pre, rng.Intn(9), route, block,
 			[]string{"plain", "plain", "tls", "starttls"}[rng.Intn(4)], rng.Intn(1<<30), hold, upanic), Kind: "unbind"})
 	}
 	return cs
